@@ -1,8 +1,166 @@
 import XmppModel.Prelude.Hex
-/-! Driver module for C06: `handle args` answers one protocol line (fields after the
-property id); `none` means the line is not understood (`!bad-op`). -/
-namespace XmppModel.Driver.C06
+import XmppModel.Model.Correlate
+/-! Driver module for C06: replays an observed trace of a forced schedule on the LTS of
+`Model/Correlate.lean`.  The answer is the model's final summary if every trace event is
+enabled in the model (trace inclusion), `bad@n:tok` otherwise.
 
-def handle (_args : List String) : Option String := none
+    C06 sess <reqs> <trace>     reqs: `kind:id,…` (kind i|m|p), trace tokens `,`-joined:
+      c<i> call   o<i> transmit ok   f<i> transmit failed (call returned)   x<i> cancel
+      s<i> requester enters its select    R<i>r<k> returned the response made from stanza k
+      R<i>c returned the context error    k<i> caller closes the response
+      p<kind><id><r|e|n> peer stanza (n: not a result/error)   H<k> handler got stanza k
+      g serve loop enters the hand-off select   h serve loop starts waiting for the close
+    C06 rcpt <ids> <trace>      ids `,`-joined, tokens: c o f x s as above, T<i> returned nil,
+      R<i>c returned the context error, q<id> receipt for id looked up (and deleted),
+      d the handler's channel send, U<id> Unhandled(id) called
+-/
+namespace XmppModel.Driver.C06
+open XmppModel XmppModel.Correlate
+
+def parseKind (c : Char) : Option Kind :=
+  if c = 'i' then some .iq else if c = 'm' then some .message else if c = 'p' then some .presence else none
+
+def nthD {α} (l : List α) (d : α) (i : Nat) : α := match l[i]? with | some x => x | none => d
+
+def parseReqs (s : String) : Option (List (Kind × Nat)) :=
+  mapM? (fun (f : String) => match f.splitOn ":" with
+    | [k, id] => do
+      let kc ← k.toList.head?
+      let kk ← parseKind kc
+      let n ← id.toNat?
+      pure (kk, n)
+    | _ => none) (splitList s)
+
+def mkCfg (reqs : List (Kind × Nat)) : Cfg :=
+  { ids := fun i => (nthD reqs (.iq, 1000 + i) i).2,
+    kinds := fun i => (nthD reqs (.iq, 1000 + i) i).1,
+    derived := true }
+
+def steps (cfg : Cfg) (s : St) (as : List Act) : Option St := run cfg s as
+
+def settle (cfg : Cfg) (s : St) : St :=
+  match step cfg s .abandon with
+  | some s' => s'
+  | none => s
+
+def numOf (cs : List Char) : Option Nat := (String.ofList cs).toNat?
+
+def applyTok (cfg : Cfg) (s : St) (tok : String) : Option St :=
+  match tok.toList with
+  | 'c' :: r => do let i ← numOf r; step cfg s (.call i)
+  | 'o' :: r => do let i ← numOf r; step cfg s (.sendOk i)
+  | 'f' :: r => do let i ← numOf r; steps cfg s [.sendFail i, .dereg i]
+  | 'x' :: r => do let i ← numOf r; step cfg s (.cancel i)
+  | 's' :: r => do
+    let i ← numOf r
+    if s.rpc i = .waiting then some s else none
+  | 'k' :: r => do let i ← numOf r; step cfg s (.close i)
+  | 'R' :: r =>
+    match (String.ofList r).splitOn "r" with
+    | [a, b] => do
+      let i ← a.toNat?; let k ← b.toNat?
+      match s.spc with
+      | .offering _ k' => if k = k' then steps cfg s [.recv i, .dereg i] else none
+      | _ => none
+    | [a] =>
+      if a.endsWith "c" then do
+        let i ← (a.dropEnd 1).toString.toNat?
+        steps cfg s [.timeout i, .dereg i]
+      else none
+    | _ => none
+  | 'p' :: kc :: r => do
+    let kind ← parseKind kc
+    let t ← r.getLast?
+    let id ← numOf r.dropLast
+    let resp ← if t = 'r' ∨ t = 'e' then some true else if t = 'n' then some false else none
+    step cfg (settle cfg s) (.read ⟨kind, id, resp⟩)
+  | 'H' :: r => do
+    let k ← numOf r
+    if s.hlog.head? = some k then some s else none
+  | ['g'] => match s.spc with
+    | .offering .. => some s
+    | _ => none
+  | ['h'] => match s.spc with
+    | .offering .. => none
+    | _ => some s
+  | _ => none
+
+def showOutcome : RPc → String
+  | .fresh => "-"
+  | .done (.reply k) _ => s!"r{k}"
+  | .done .ctxErr _ => "c"
+  | .done .sendErr _ => "f"
+  | _ => "b"
+
+def summary (cfg : Cfg) (n : Nat) (s0 : St) : String :=
+  let s := settle cfg s0
+  let outs := (List.range n).map fun i => showOutcome (s.rpc i)
+  let hl := s.hlog.reverse.map toString
+  let probe := if s.spc = .idle then "live" else "stall"
+  s!"out={joinList outs "/"} hl={joinList hl} probe={probe}"
+
+def replayAll (cfg : Cfg) : List String → Nat → St → Except String St
+  | [], _, s => .ok s
+  | t :: ts, n, s => match applyTok cfg s t with
+    | some s' => replayAll cfg ts (n + 1) s'
+    | none => .error s!"bad@{n}:{t}"
+
+/-! receipts -/
+open Receipts in
+def applyR (ids : Nat → Nat) (s : RSt) (tok : String) : Option RSt :=
+  match tok.toList with
+  | 'c' :: r => do let i ← numOf r; rstep ids s (.call i)
+  | 'o' :: r => do let i ← numOf r; rstep ids s (.sendOk i)
+  | 'f' :: r => do let i ← numOf r; rstep ids s (.sendFail i)
+  | 'x' :: r => do let i ← numOf r; rstep ids s (.cancel i)
+  | 's' :: r => do
+    let i ← numOf r
+    if s.wpc i = .waiting then some s else none
+  | 'T' :: r => do let i ← numOf r; rstep ids s (.take i)
+  | 'R' :: r => do
+    let a := String.ofList r
+    if a.endsWith "c" then do
+      let i ← (a.dropEnd 1).toString.toNat?
+      rstep ids s (.timeout i)
+    else none
+  | 'q' :: r => do let id ← numOf r; rstep ids s (.receipt id)
+  | ['d'] => rstep ids s .deliver
+  | 'U' :: r => do
+    let id ← numOf r
+    if s.unhandled.head? = some id then some s else none
+  | _ => none
+
+open Receipts in
+def replayR (ids : Nat → Nat) : List String → Nat → RSt → Except String RSt
+  | [], _, s => .ok s
+  | t :: ts, n, s => match applyR ids s t with
+    | some s' => replayR ids ts (n + 1) s'
+    | none => .error s!"bad@{n}:{t}"
+
+open Receipts in
+def showW : WPc → String
+  | .fresh => "-" | .done true => "ok" | .done false => "err" | _ => "b"
+
+open Receipts in
+def summaryR (n : Nat) (s : RSt) : String :=
+  let outs := (List.range n).map fun i => showW (s.wpc i)
+  let probe := if s.hpc.isNone && !s.overflow then "live" else "stall"
+  s!"out={joinList outs "/"} unh={joinList (s.unhandled.reverse.map toString)} probe={probe}"
+
+def handle (args : List String) : Option String :=
+  match args with
+  | ["sess", reqs, trace] => do
+    let rs ← parseReqs reqs
+    let cfg := mkCfg rs
+    match replayAll cfg (splitList trace) 0 init with
+    | .ok s => pure (summary cfg rs.length s)
+    | .error e => pure e
+  | ["rcpt", ids, trace] => do
+    let l ← mapM? String.toNat? (splitList ids)
+    let idf := fun i => nthD l (1000 + i) i
+    match replayR idf (splitList trace) 0 Receipts.rinit with
+    | .ok s => pure (summaryR l.length s)
+    | .error e => pure e
+  | _ => none
 
 end XmppModel.Driver.C06
